@@ -33,6 +33,7 @@ type PathState struct {
 	InputOrder   []string
 	Obligations  []Obligation
 	Observations []Observation
+	Notes        []string
 	Reached      map[string]int
 	Flags        map[string]bool // e.g. "nontrivial"
 }
@@ -324,6 +325,24 @@ func registerHarness(m *Machine) {
 		}
 		ps := m.PS()
 		ps.Obligations = append(ps.Obligations, ob)
+		return nil
+	}
+	e[hpkg+"vAssertInfo"] = func(m *Machine, fr *frame, a []value) value {
+		ob := Obligation{Label: concStr(a[1]), PCLen: len(m.PC), Info: concStr(a[2])}
+		switch c := a[0].(type) {
+		case bool:
+			ob.Conc = c
+		case *symv:
+			ob.Conc = c.c.(bool)
+			ob.T = c.t
+		}
+		ps := m.PS()
+		ps.Obligations = append(ps.Obligations, ob)
+		return nil
+	}
+	e[hpkg+"vNote"] = func(m *Machine, fr *frame, a []value) value {
+		ps := m.PS()
+		ps.Notes = append(ps.Notes, concStr(a[0])+": "+m.concretizeStr(a[1]))
 		return nil
 	}
 	e[hpkg+"vReach"] = func(m *Machine, fr *frame, a []value) value {
